@@ -218,7 +218,7 @@ CancelSentOK(c, p, seen) == /\ seen \subseteq {c.steps[k] : k \in 1..p}
 
 \* cases for which the statement fixes the NUMBER of samples only
 CountOnly(c) == c.kind = "grpcbad" \/ IsCancel(c)
-ExpectedCount(c) == IF IsCancel(c) THEN Len(c.steps) ELSE IF CountOnly(c) THEN 1 ELSE Len(Expected(c))
+ExpectedCount(c) == IF IsCancel(c) THEN Len(c.steps) ELSE IF CountOnly(c) THEN 1 ELSE IF c.kind = "grpcfile" THEN c.n ELSE Len(Expected(c))
 
 (* Comparison of what the aggregator got (rep: <<[tags, proto, net]>>) with Expected(c).        *)
 \* the first tag of a scenario sample names scenario and step; plain guns: the whole tag list
